@@ -416,3 +416,64 @@ def thm_rt_ext_match(e_rule: bytes, rule_b: bytes, has_rule: bool, e_type: bytes
         lemma_fold_skip(e_rule, 1, rule_b, t1, 4, True, empty(), False)
     else:
         assert cat(empty(), t1) == t1
+
+
+def lemma_sel_skip(e: bytes, num_e: int, content: bytes, tail: bytes, num: int, acc: seqbytes) -> None:
+    lemma_tlv_roundtrip(e, 2, False, num_e, content, tail)
+    lemma_tlv_prefix(e, tail)
+    assert len(cat(e, tail)) >= 2
+    assert not ctx_is(cat(e, tail), num)
+
+
+def lemma_sel_run(s: bytes, xs: seqbytes, i: int, n: int, num: int, acc: seqbytes, tail: bytes) -> None:
+    """A run of [num] elements holding xs[i:n], followed by tail: the fold collects exactly those contents, in order."""
+    if i < n:
+        lemma_tlv_roundtrip(take(s, tlv_len(s)), 2, False, num, xs[i], cat(drop(s, tlv_len(s)), tail))
+        lemma_tlv_prefix(take(s, tlv_len(s)), cat(drop(s, tlv_len(s)), tail))
+        assert cat(take(s, tlv_len(s)), drop(s, tlv_len(s))) == s
+        assert cat(take(s, tlv_len(s)), cat(drop(s, tlv_len(s)), tail)) == cat(s, tail)
+        assert len(cat(s, tail)) >= 2
+        assert ctx_is(cat(s, tail), num)
+        lemma_sel_run(drop(s, tlv_len(s)), xs, i + 1, n, num, snoc_bytes(acc, xs[i]), tail)
+        assert cat_list(snoc_bytes(acc, xs[i]), slice_list(xs, i + 1, n)) == cat_list(acc, slice_list(xs, i, n))
+    else:
+        assert cat(s, tail) == tail
+        assert cat_list(acc, slice_list(xs, i, n)) == acc
+
+
+def lemma_fold_skip_run(s: bytes, xs: seqbytes, i: int, n: int, num_run: int, tail: bytes, num: int, acc_none: bool, acc: bytes) -> None:
+    """A run of [num_run] elements is skipped by the folds for another tag."""
+    if i < n:
+        lemma_fold_skip(take(s, tlv_len(s)), num_run, xs[i], cat(drop(s, tlv_len(s)), tail), num, acc_none, acc, False)
+        assert cat(take(s, tlv_len(s)), drop(s, tlv_len(s))) == s
+        assert cat(take(s, tlv_len(s)), cat(drop(s, tlv_len(s)), tail)) == cat(s, tail)
+        lemma_fold_skip_run(drop(s, tlv_len(s)), xs, i + 1, n, num_run, tail, num, acc_none, acc)
+    else:
+        assert cat(s, tail) == tail
+
+
+def thm_rt_substrings(e_init: bytes, init: bytes, has_init: bool, c_any: bytes, xs: seqbytes, e_final: bytes, final: bytes, has_final: bool) -> None:
+    """The element stream of `substrings` as the encoder lays it out - initial [0]?, the any [1] run, final [2]? - read back by the decoder's
+    three folds."""
+    tf = ite(has_final, e_final, empty())
+    ta = cat(c_any, tf)
+    # final
+    if has_final:
+        lemma_fold_hit(e_final, 2, final, empty(), True, empty(), False)
+        lemma_fold_skip(e_final, 2, final, empty(), 0, True, init, False)
+        lemma_fold_skip(e_final, 2, final, empty(), 0, False, init, False)
+        lemma_sel_skip(e_final, 2, final, empty(), 1, cat_list(nil_bytes(), slice_list(xs, 0, len(xs))))
+        assert cat(e_final, empty()) == e_final
+    # the any run
+    lemma_sel_run(c_any, xs, 0, len(xs), 1, nil_bytes(), tf)
+    assert cat_list(nil_bytes(), slice_list(xs, 0, len(xs))) == xs
+    lemma_fold_skip_run(c_any, xs, 0, len(xs), 1, tf, 0, True, init)
+    lemma_fold_skip_run(c_any, xs, 0, len(xs), 1, tf, 0, False, init)
+    lemma_fold_skip_run(c_any, xs, 0, len(xs), 1, tf, 2, True, empty())
+    # initial
+    if has_init:
+        lemma_fold_hit(e_init, 0, init, ta, True, empty(), False)
+        lemma_fold_skip(e_init, 0, init, ta, 2, True, empty(), False)
+        lemma_sel_skip(e_init, 0, init, ta, 1, nil_bytes())
+    else:
+        assert cat(empty(), ta) == ta
